@@ -79,7 +79,7 @@ func vPutTyped(buf *commit.Buffer, k vKind, op commit.OpType, off uint32, num ui
 		buf.PutFloat64(op, off, math.Float64frombits(num))
 	case vBool:
 		buf.PutBool(off, num&1 == 1)
-	case vString, vEnum:
+	case vString, vEnum, vStringCat:
 		buf.PutString(op, off, str)
 	}
 }
